@@ -18,7 +18,7 @@ PAIR_STRIDE = [1, 0]          # [stride, offset] of the U-PAIR members used for 
 
 def setup():
     if "alpha" not in _CACHE:
-        main = B.alphabet()
+        main = B.alphabet(api_only=True)
         pairs = B.pair_alphabet(*PAIR_STRIDE)
         _CACHE["main_names"] = [n for n, _ in main]
         _CACHE["pair_names"] = [n for n, _ in pairs]
@@ -103,6 +103,9 @@ def run_via_main(batch):
     try:
         os.mkdir(os.path.join(tmp, "inputs"))
         os.mkdir(os.path.join(tmp, "outputs"))
+        # environment: a longer report of the same name left behind by an earlier run; the new report must replace it entirely
+        with open(os.path.join(tmp, "outputs", "batch_1.txt"), "w", encoding="utf-8") as f:
+            f.write(B.STALE_REPORT)
         with open(os.path.join(tmp, "inputs", "batch_1.py"), "w", encoding="utf-8") as f:
             f.write(repr(batch))
         os.chdir(tmp)
@@ -168,14 +171,10 @@ def run(ctx):
     for k in range(0, kmax + 1):
         for p in itertools.permutations(names, k):
             sels.append((p, False))
-    if ctx.thorough:
-        for k in range(0, 3):
-            for p in itertools.permutations(names, k):
-                sels.append((p, True))
-    else:
-        for k in range(0, 2):
-            for p in itertools.permutations(names, k):
-                sels.append((p, True))
+    file_names = [n for n in names if n not in B.API_ONLY]
+    for k in range(0, 3 if ctx.thorough else 2):
+        for p in itertools.permutations(file_names, k):
+            sels.append((p, True))
     # every ordered two-game batch of the family U-PAIR (games that coincide in one aspect and differ in another)
     pn = _CACHE["pair_names"]
     npairs = 0
@@ -190,7 +189,7 @@ def run(ctx):
     for kid, d in known.items():
         d["what"] = KF.get(kid, "")
     if tot["dicts"] != len(sels) and not tot.get("skipped_shards"):
-        raise par.HarnessError("C12: %d of %d selections run" % (tot["dicts"], len(sels)))
+        raise par.GuardError("C12: %d of %d selections run" % (tot["dicts"], len(sels)))
     cov = {"states": tot["dicts"], "transitions": tot["solves"], "traces_validated_against_impl": tot["dicts"],
            "evaluations": tot["dicts"], "distinct_nontrivial": tot["nontrivial"], "alphabet": names,
            "max_selection_length": kmax, "ordered_two_game_batches_of_U_PAIR": npairs, "selections_through_main": sum(1 for s in sels if s[1]),
